@@ -292,6 +292,12 @@ def run(ctx: Ctx):
         ah = horizon_nadir(alt)
         cfgs.append((alt, float(rng.uniform(-1.5, 1.5)), float(rng.uniform(-3.1, 3.1)), float(rng.uniform(0.02, 0.9) * min(ah, np.radians(25.0))),
                      float(np.radians(rng.choice([0.5, 1.5, 3.0, 10.0, 30.0, 80.0]))), float(np.radians(rng.choice([10.0, 90.0, 360.0])))))
+    # an altitude scan at a fixed simulation section (objects built one after the other in one process: the constants of
+    # each must be its own), then the mixed configurations
+    dflt = (np.radians(7.0), np.radians(3.0), 2 * np.pi)
+    for alt in (525.0, 33.0, 1000.0, 525.0, 3.0):
+        pointwise(ctx, (alt, 0.0, 0.0, *dflt), max(12, nev // 4))
+        ctx.count("altitude-scan-same-simulation-section")
     for c in cfgs:
         pointwise(ctx, c, nev)
     # ---- quadrature
